@@ -23,7 +23,7 @@ RULE = ('case = (driver spec, encoder, first operation): all operation sequences
         '(quick: decode operations restricted to 4+2 spread vectors, thorough: every vector); '
         'states = sequences executed, transitions = operations replayed; non-trivial = sequence containing a state-changing '
         'operation (fix/free/mutate/pickle) or a corrected decode; plus one case per (driver spec) for the hash-seed x id-assignment axis')
-ASSUMPTIONS = ['quick: stateless enumeration of all sequences <= 3; thorough: <= 4 (no state merging, so nothing is merged wrongly)',
+ASSUMPTIONS = ['stateless enumeration (no state merging, so nothing is merged wrongly): quick all sequences <= 3 over the reduced decode alphabet; thorough <= 3 over the full alphabet and <= 4 over the reduced one',
                'the fresh processor lives in the same worker process: process-wide caches (lru_cache, class attributes) are shared; '
                'every violation is re-run in a fresh process by the runner',
                'driver specs are selected by feature predicates from the families (see drivers())']
@@ -33,8 +33,8 @@ _TIER = ['quick']
 
 
 def scope_text(tier):
-    return '%d driver specs x 2 encoders x all operation sequences of length <= %d; hash seeds {0,1,2} x 3 id assignments' % \
-        (len(drivers(tier)), 3 if tier == 'quick' else 4)
+    return '%d driver specs x 2 encoders x all operation sequences of length <= 3 (%s); hash seeds {0,1,2} x 3 id assignments' % \
+        (len(drivers(tier)), 'reduced decode alphabet' if tier == 'quick' else 'full alphabet; <= 4 over the reduced alphabet')
 
 
 def drivers(tier='quick'):
@@ -82,7 +82,10 @@ def cases(tier, seed):
         for enc in ('COMPLETE', 'FAST'):
             n_ops = len(alphabet_for(spec, enc))
             for first in range(n_ops):
-                yield dict(kind='hist', name=name, spec=spec, enc=enc, first=first)
+                yield dict(kind='hist', name=name, spec=spec, enc=enc, first=first, depth=3, reduced=False)
+            if tier != 'quick':
+                for first in range(len(alphabet_for(spec, enc, reduced=True))):
+                    yield dict(kind='hist', name=name, spec=spec, enc=enc, first=first, depth=4, reduced=True)
 
 
 def worker_init(tier, seed):
@@ -104,7 +107,7 @@ class Subject:
         return list(self.gp.all_des_vars)
 
 
-def alphabet_for(spec, enc):
+def alphabet_for(spec, enc, reduced=False):
     s = Subject(spec, enc)
     if s.gp is None:
         return []
@@ -112,7 +115,7 @@ def alphabet_for(spec, enc):
     dvs = s.all_vars()
     space = list(itertools.product(*[sweep.dv_values(dv) for dv in dvs]))
     # decodes are generated against the FULL (unfixed) variable list; fixed variables are dropped at apply time
-    if _TIER[0] == 'quick' and len(space) > 4:
+    if (_TIER[0] == 'quick' or reduced) and len(space) > 4:
         # quick: first, last and two spread vectors as history operations (the observation still decodes ALL vectors)
         k = len(space)
         space_ops = [space[0], space[k//3], space[(2*k)//3], space[-1]]
@@ -120,7 +123,7 @@ def alphabet_for(spec, enc):
         space_ops = space
     for x in space_ops:
         ops.append(('decode', list(x), True))
-    for x in space_ops[:2] if _TIER[0] == 'quick' else space_ops:
+    for x in space_ops[:2] if (_TIER[0] == 'quick' or reduced) else space_ops:
         ops.append(('decode', list(x), False))
     ops.append(('enum',))
     ops.append(('stats',))
@@ -229,8 +232,8 @@ def check_instances(s):
 def run_hist(case, res):
     spec, enc = case['spec'], case['enc']
     feats = res['features']
-    ops = alphabet_for(spec, enc)
-    depth = 3 if _TIER[0] == 'quick' else 4
+    ops = alphabet_for(spec, enc, reduced=case.get('reduced', False))
+    depth = case.get('depth', 3)
     first = ops[case['first']]
     ref_cache = {}
 
@@ -380,7 +383,7 @@ def run_config(case, res):
 
 def run_case(case):
     res = dict(evals=0, states=0, trans=0, nontrivial=False, features={}, violations=[])
-    res['key'] = '%s/%s/%s' % (case['name'], case.get('enc'), case.get('first'))
+    res['key'] = '%s/%s/%s/%s' % (case['name'], case.get('enc'), case.get('first'), case.get('depth'))
     spec = case['spec']
     if spec.get('cch'):
         res['features']['drv_conn'] = 1
